@@ -14,7 +14,7 @@ RULE = ('server lifetimes with capacity 1-4 and 2-16 concurrent callers (threads
         'timeouts with deadline ~ service time, abandoned streams, cancelled asyncio tasks, under the schedule fuzzer (targeted on the wait/insert '
         'window of _enqueue and on the gather/notify threads); monitors: ledger shadow evaluated inside the server\'s own critical section, public '
         'backlog sampled at every client call/return and inside every worker call, Condition.wait counter per thread, worker call log. '
-        'non-trivial = the backlog reached capacity and >=1 request was rejected or waited; distinct = distinct (scenario, capacity, callers, seed)')
+        'non-trivial = the backlog reached capacity and >=1 request was rejected or waited; distinct = distinct (scenario, capacity, callers, seed); process-servlet lifetimes (onboarding thread + pipe) with 0.3-3 MB payloads, slow workers and short deadlines')
 ASSUMPTIONS = ['"idle" = every caller has returned and the worker call log has not grown for 1 s; backlog must then reach 0 within 10 s',
                '"waits no longer than its timeout" is checked only in a scenario with service time 3 s vs timeout 0.1 s (verdict threshold 1.5 s)']
 CASE_TIMEOUT = 200
